@@ -97,10 +97,14 @@ class Gen(object):
         if not self.ok('select_entity_member'):
             sel1 = [m for m in sel1 if not m.startswith('e')]
         s.types.append(TypeDef('sel1', 'select', members=sel1))
+        if self.ok('defined_aggr') and self.ok('aggr_of_entity') and rng.random() < .6:
+            s.types.append(TypeDef('elist', 'simple', base=AGG('SET', ENT(rng.choice(names)), 0, None)))   # SET: a second LIST member in one select does not compile (duplicate case LIST_TYPE)
         if self.ok('select_of_select') and rng.random() < .7:
             m2 = ['sel1', 'cnt']
             if self.ok('select_aggr_member') and self.ok('defined_aggr'):
                 m2.append('ilist')
+                if any(t.name == 'elist' for t in s.types):
+                    m2.append('elist')
             s.types.append(TypeDef('sel2', 'select', members=m2))
             s.tags.add('select_of_select')
         if rng.random() < .5 and len(names) >= 2 and self.ok('select_entity_member'):
@@ -252,7 +256,7 @@ class Gen(object):
             opts.append(('BINARY', 2))
         if self.ok('number'):
             opts.append(('NUMBER', 2))
-        for extra in ('label2', 'flag', 'qty', 'colour2', 'mode', 'ilist', 'rarr', 'sel2', 'esel', 'sel3'):
+        for extra in ('label2', 'flag', 'qty', 'colour2', 'mode', 'ilist', 'rarr', 'sel2', 'esel', 'sel3', 'elist'):
             if extra in tn:
                 opts.append((extra, 2))
         ch = rng.choices([o[0] for o in opts], [o[1] for o in opts])[0]
